@@ -276,7 +276,27 @@ func c10prefetch(op string, f Op, a ...string) {
 	c10mu.Lock()
 	c10pre[op+" "+strings.Join(a, " ")] = ch
 	c10mu.Unlock()
-	go func() { ch <- safeRun(f, a) }()
+	go func() { ch <- longRun(f, a, 4*time.Minute) }()
+}
+
+// longRun is safeRun with its own time limit (protocol runs with safe-prime generation or FROST's 10 s start-up
+// pause do not fit the driver's 20 s op limit; they are started ahead by the generator and collected by the op).
+func longRun(f Op, args []string, d time.Duration) string {
+	done := make(chan string, 1)
+	go func() {
+		defer func() {
+			if r := recover(); r != nil {
+				done <- "panic"
+			}
+		}()
+		done <- f(args)
+	}()
+	select {
+	case r := <-done:
+		return r
+	case <-time.After(d):
+		return "hang"
+	}
 }
 
 func c10cellRun(a []string) string {
@@ -531,7 +551,56 @@ func c10stuck(a []string) string {
 	}
 }
 
+// C09.rerun <kind> <n>   what the coordinator's retry does to a retryable (signing) process: Run it n times (each run
+//   ended by cancelling its context once the party has handed over its first-round messages), then Stop it once.
+//   => sub=<subscriptions obtained>,unsub=<released>,live=<still registered for the session id>
+func c9rerun(a []string) string { return c10cached("rerun", c9rerunRun, a) }
+
+func c9rerunRun(a []string) string {
+	kind, n := a[0], int(u64(a[1]))
+	w := newC10World(2, true)
+	defer w.close()
+	nd := w.nodes[0]
+	sid := w.sidWithCoordinator("r", 1)
+	proc, _, ok := w.mk(kind, nd, sid, 1)
+	if !ok {
+		return "ctorerr"
+	}
+	params := w.startParams(kind, sid)
+	mt := c10msgType(kind)
+	for i := 0; i < n; i++ {
+		ctx, cancel := context.WithCancel(context.Background())
+		ret := make(chan error, 1)
+		s0, _, _ := nd.ledger.counts(sid)
+		b0 := nd.ledger.bcasts(sid, mt)
+		go func() { ret <- proc.Run(ctx, false, make(chan interface{}, 4), params) }()
+		okRun := waitUntil(c9wait, func() bool { s1, _, _ := nd.ledger.counts(sid); return s1 > s0 })
+		if okRun && strings.HasPrefix(kind, "e") {
+			okRun = waitUntil(c9wait, func() bool { return nd.ledger.bcasts(sid, mt) > b0 })
+			for last, since := nd.ledger.bcasts(sid, mt), time.Now(); time.Since(since) < 400*time.Millisecond; {
+				time.Sleep(5 * time.Millisecond)
+				if k := nd.ledger.bcasts(sid, mt); k != last {
+					last, since = k, time.Now()
+				}
+			}
+		}
+		cancel()
+		select {
+		case <-ret:
+		case <-time.After(c9wait + 8*time.Second):
+			okRun = false
+		}
+		if !okRun {
+			return "hang"
+		}
+	}
+	proc.Stop()
+	s1, u1, _ := nd.ledger.counts(sid)
+	return fmt.Sprintf("sub=%d,unsub=%d,live=%d", s1, u1, nd.ledger.inner.VerifLiveSubscriptions(sid))
+}
+
 func init() {
+	ops["C09.rerun"] = c9rerun
 	ops["C10.full"] = c10full
 	ops["C10.stuck"] = c10stuck
 	ops["C10.cell"] = c10cell
